@@ -7,7 +7,7 @@ ASSUMPTIONS = ['the RFC 4180 reader of the direct test is Python\'s csv module w
                'free-form text options: only the structural statement (fields joined by the separator) is checked, fields cannot be recovered when separators occur in data']
 TRUSTED = []
 
-STRS = ['a', '', 'a,b', 'q"q', 'line\nbreak', 'cr\rlf\r\n', 'tab\there', 'é', ' lead', 'trail ', '""', ',', '"', 'x y', '日本', '=1+1', '-5', '+x', '@home', "'q", '-', '=']
+STRS = ['a', '', 'a,b', 'q"q', 'line\nbreak', 'cr\rlf\r\n', 'tab\there', 'é', ' lead', 'trail ', '""', ',', '"', 'x y', '日本', '=1+1', '-5', '+x', '@home', "'q", '-', '=', 'left|right', 'back\\slash', 'ax;,xa', 'a|b\\c;d,e']
 def value(rnd, depth=1):
     x = rnd.random()
     if x < 0.35: return rnd.choice(STRS)
@@ -60,7 +60,14 @@ def run(ctx):
         if rnd.random() < 0.3: t['null'] = 'NULL'; t['true'] = 'yes'; t['false'] = 'no'
         if rnd.random() < 0.4: t['missing'] = rnd.choice(['-', 'N/A', ''])
         if rnd.random() < 0.4: t['headers'] = True
-        if rnd.random() < 0.3: t['escape'] = [rnd.choice(['"\\"', "'\\'", ';,', 'ax'])]
+        if rnd.random() < 0.4:
+            # one to three escape sequences; a replacement may contain a character that another sequence escapes (each character of
+            # the data is looked up once: replacements are not escaped again), in either order on the command line
+            pool = ['"\\"', "'\\'", ';,', 'ax', '|\\|', '\\\\\\', 'xa', ',;', 'b|']
+            esc = []
+            for e in rnd.sample(pool, rnd.choice([1, 1, 2, 3])):
+                if e[0] not in [x[0] for x in esc]: esc.append(e)
+            t['escape'] = esc
         c = mkcase('T%d' % i, lib.new_cfg(style='text', select=sel, text_opts=t or None, rowsep=rnd.choice([None, '\n', ';\n'])), data); cases.append(c); meta[c['id']] = ('text', recs, cols, sel, t)
     impl, model, mism = common.correspond(cases)
     violations = []; checked = 0
